@@ -964,6 +964,53 @@ fn c03_handler_situations(rep: &mut Report, args: &Args) {
         }
     }
     *slot.lock().unwrap() = None;
+    // ---- (b2) a client built directly on a real bounded queuing sink that is full: the refusal is a failure like any other
+    {
+        struct Blocked(std::sync::Arc<(std::sync::Mutex<bool>, std::sync::Condvar)>);
+        impl cadence::MetricSink for Blocked {
+            fn emit(&self, m: &str) -> io::Result<usize> {
+                let (mx, cv) = &*self.0;
+                let mut g = mx.lock().unwrap_or_else(|e| e.into_inner());
+                while !*g {
+                    g = cv.wait(g).unwrap_or_else(|e| e.into_inner());
+                }
+                Ok(m.len())
+            }
+        }
+        let gate = std::sync::Arc::new((std::sync::Mutex::new(false), std::sync::Condvar::new()));
+        let q = cadence::QueuingMetricSink::with_capacity(Blocked(gate.clone()), 2);
+        let probe = q.clone();
+        let reported = std::sync::Arc::new(AtomicU64::new(0));
+        let rp = reported.clone();
+        let c = StatsdClient::builder("full", q).with_error_handler(move |_e| {
+            rp.fetch_add(1, O::SeqCst);
+        }).build();
+        // fill the queue (the worker takes one and blocks, two more fit)
+        let mut refused_try = 0u64;
+        for k in 0..12i64 {
+            if c.count("fill", k).is_err() {
+                refused_try += 1;
+            }
+        }
+        let before = reported.load(O::SeqCst);
+        let quiet = 9u64;
+        for k in 0..quiet {
+            c.gauge_with_tags("quiet", k).send();
+        }
+        let got = reported.load(O::SeqCst) - before;
+        rep.eval();
+        rep.obs("quiet_sends_refused_by_a_full_bounded_queuing_sink", quiet);
+        if refused_try < 8 {
+            rep.inconclusive(format!("full-queue scenario: only {} of 12 plain calls were refused by a queue of capacity 2 behind a blocked sink", refused_try));
+        } else if before != 0 {
+            violation(rep, "handler-exactly-once-on-failure", "handler-on-nonquiet", format!("the handler was invoked {} times for plain calls (they return their error)", before));
+        } else if got != quiet {
+            violation(rep, "handler-exactly-once-on-failure", "handler-count-on-failure", format!("{} quiet sends on a client whose sink is a full bounded queuing sink (queued {}): the handler was invoked {} times", quiet, probe.queued(), got));
+        }
+        let (mx, cv) = &*gate;
+        *mx.lock().unwrap() = true;
+        cv.notify_all();
+    }
     // ---- (c) a sink that panics now and then ----
     struct Moody(AtomicU64);
     impl cadence::MetricSink for Moody {
